@@ -399,6 +399,18 @@ theorem min_cost_generated (e : Env K) (hx : e.ops = fieldOps stepK heurK) (st :
      readAcc s'.env = accVars (minStep e st acc c) ∧ s'.failed = none ∧ s'.halted = false) :=
   ⟨minInit_generated e stepK heurK hx, minStep_generated e stepK heurK hx st acc c⟩
 
+/-- **the whole of `_min_cost_pixel_id`**: the generated loop body run over the cells in row-major order from
+    the generated initialisation leaves in `(best_y, best_x)` the cell `minCostOpen` returns (`(-1, -1)` for
+    `none`) -/
+theorem min_cost_scan_generated (e : Env K) (hx : e.ops = fieldOps stepK heurK) (st : St K) :
+    ((cells e.h e.w).foldl (genMinStep st) (accVars ((none : Option Cell), e.ops.big e.h e.w))).1 =
+      (match minCostOpen e st with | none => (some (-1) : NV K) | some c => some (c.1 : K)) ∧
+    ((cells e.h e.w).foldl (genMinStep st) (accVars ((none : Option Cell), e.ops.big e.h e.w))).2.1 =
+      (match minCostOpen e st with | none => (some (-1) : NV K) | some c => some (c.2 : K)) := by
+  rw [minScan_generated e stepK heurK hx st]
+  unfold minCostOpen accVars
+  constructor <;> split <;> simp_all
+
 /-- **`_is_not_crossable` is the model's barrier test** (NaN, or equal as a real number to a listed
     value; no conversion of the list), and `_is_inside` is `inside` -/
 theorem barrier_and_inside_tests_generated (v : Val) (bars : List Val) (hv : v.finiteOrNaN)
